@@ -67,8 +67,10 @@ def write_machine(scratch):
 
 
 def mc_module(full=True):
-    ms, pw, te = (MS, POW, TEV) if full else ([NONE, -5, 10, 300], [NONE, -50, 50, 150], [NONE, -100, 100])
-    table = TABLE if full else [c for c in TABLE if c['id'] in (2, 4, 6)]
+    # full: every value class (schedule generation); 'medium': the exhaustive check of the thorough tier (the full sets
+    # do not finish within 40 minutes at MaxOps 2); reduced: quick tier
+    ms, pw, te = {True: (MS, POW, TEV), 'medium': ([NONE, -5, 0, 10, 300], [NONE, -50, 0, 50, 100, 150], TEV),
+                  False: ([NONE, -5, 10, 300], [NONE, -50, 50, 150], [NONE, -100, 100])}[full]
     return """------------------------------ MODULE CoilMC ------------------------------
 EXTENDS Coil
 MCNONE == %d
@@ -321,11 +323,11 @@ def run(ctx):
     mdir = write_machine(ctx.scratch)
     wd = tlc.prepare(ctx.scratch, 'Coil', 'coil')
     with open(wd + '/CoilMC.tla', 'w') as f:
-        f.write(mc_module(full=not ctx.quick))
+        f.write(mc_module(full=False if ctx.quick else 'medium'))
     with open(wd + '/MC.cfg', 'w') as f:
         f.write(mc_cfg(2))
     r = tlc.expect_ok(tlc.check(wd, 'CoilMC', 'MC.cfg', timeout=3000), 'Coil design check')
-    ctx.add_tlc('CoilMC', r, {'configs': len(TABLE), 'pulse_ms classes': len(MS), 'power classes': len(POW), 'MaxOps': 2, 'value sets': 'reduced' if ctx.quick else 'full'})
+    ctx.add_tlc('CoilMC', r, {'configs': len(TABLE), 'pulse_ms classes': len(MS), 'power classes': len(POW), 'MaxOps': 2, 'value sets': 'reduced' if ctx.quick else 'medium'})
     ctx.coverage['monitors'] += ['Envelope', 'RefuseNotCommand', 'SoftwarePulseEnds', 'HoldWatchdog']
     with open(wd + '/CoilMC.tla', 'w') as f:
         f.write(mc_module(full=True))
